@@ -44,7 +44,7 @@ func coreLocks(tier string) []RunSpec {
 	}
 	for ov := 0; ov < numOutWit; ov++ {
 		for pos := 0; pos < 3; pos++ {
-			out = append(out, RunSpec{Profile: "core:sigall-outputs", Params: map[string]int{"ov": ov, "flag": 1, "pos": pos, "wv": 3}})
+			out = append(out, RunSpec{Profile: "core:sigall-outputs", Params: map[string]int{"ov": ov, "flag": 1, "pos": pos, "wv": 3, "to": (ov + pos) % 3}})
 		}
 	}
 	for k := 0; k < 4; k++ {
@@ -89,6 +89,10 @@ func (lr *lockRun) drawCfg(rc *RunCtx) *LockCfg {
 	}
 	if v, ok := rc.Spec.Params["flag"]; ok {
 		c.SigFlag = []string{"", "SIG_ALL"}[v]
+	}
+	c.TagOrder = T.Pick("lock.tagorder", 2, 1, 1)
+	if v, ok := rc.Spec.Params["to"]; ok {
+		c.TagOrder = v
 	}
 	if T.Chance("lock.nsigs", 2, 3) {
 		c.NSigs = T.Choose("lock.n", 5)
